@@ -872,7 +872,7 @@ def judge_cli(case, obs):
     if case.get("expect_status") is not None:
         # an expression that cannot be evaluated with the values as DATA (e.g. text compared with a number): an evaluation
         # error, whatever the names would mean if they were pasted in as code
-        if obs["status"] != case["expect_status"]:
+        if obs["status"] not in (case["expect_status"] if isinstance(case["expect_status"], list) else [case["expect_status"]]):
             return "status %r, expected %r: the expression has no value when the file-derived values are data; stderr %r" % (
                 obs["status"], case["expect_status"], obs["stderr"][-200:])
         if any(new.startswith("zzsel_") or new.startswith("zzord_") for new in obs["renamed"].values()):
@@ -976,6 +976,11 @@ def part_cli(chk, rng, n, stats):
     for pos, e in (("filter", "%Base() > 10"), ("filter", "%Name() + 1 > 0"), ("filter", "int(%Base()) > 10"), ("sort", "%Base() + 1"),
                    ("sort", "(-%Name())"), ("filter", "%Base() and %Base() < 5")):
         fixed.append({"kind": "cli", "names": codey, "position": pos, "expr": e, "invert": False, "expect_status": 4})
+    # tags that read their CONTEXT as a number: a file-derived context that is not a number is an error, never code
+    # (the unchanged program ends such a run with the unknown-error status 126 rather than 4: noted in DESIGN.md)
+    numy = [[".", "12.txt", 6], [".", "7", 7], [".", "3.5.txt", 8], [".", "open('CANARY','w') and 7", 7], [".", "__import__('os').mkdir('CANARY') or 99.txt", 8]]
+    for pos, e in (("sort", "%Round(){%Base()}"), ("filter", "float(%Round(1){%Base()}) > 3"), ("sort", "%AsSize('k'){%Base()}")):
+        fixed.append({"kind": "cli", "names": numy, "position": pos, "expr": e, "invert": False, "expect_status": [4, 126]})
     for i in range(n + len(fixed)):
         case = fixed[i] if i < len(fixed) else gen_cli_case(rng, "filter" if i % 2 == 0 else "sort")
         obs = run_cli_case(case)
